@@ -45,7 +45,12 @@ def one(out: Outcome, rng, name, cls, params, ref, test, K, method, lines, expec
     n, m = len(ref), len(test)
     X, Y = np.array(ref), np.array(test)
     if name == "MMD":
-        X, Y = X.reshape(-1, 1), Y.reshape(-1, 1)
+        cols = params.pop("_columns", 1) if "_columns" in params else 1
+        if cols == 1:
+            X, Y = X.reshape(-1, 1), Y.reshape(-1, 1)
+        else:       # multivariate samples: rows are observations (ref/test hold rows*cols values)
+            X, Y = X.reshape(-1, cols), Y.reshape(-1, cols)
+            n, m = len(X), len(Y)
     seed = rng.randint(0, 10**6)
     results = []
     for j in jobs:
@@ -141,6 +146,12 @@ def run(out: Outcome) -> None:
                 test = [float(rng.randint(0, 3)) for _ in range(m)]
             method = methods[(i + rep_i) % len(methods)]
             one(out, rng, name, cls, params, ref, test, rng.choice([10, 20]), method, lines, expect, jobs=(1, 2) if i % 3 == 0 else (1,))
+    # multivariate samples (2-3 columns) for MMD: the pooled sample is re-split by ROWS
+    for cols in (2, 3):
+        n, m = rng.randint(4, 9), rng.randint(4, 9)
+        ref = [rng.gauss(0, 1) for _ in range(n * cols)]
+        test = [rng.gauss(0.6, 1) for _ in range(m * cols)]
+        one(out, rng, "MMD", MMD, {"chunk_size": rng.choice([None, 2]), "kernel": partial(rbf_kernel, sigma=1.0), "_columns": cols}, ref, test, 12, "conservative", lines, expect)
     # a user-supplied total_num_permutations (e.g. the number of DISTINCT splits C(n+m, n)) is the m_t of the formulas
     for meth in ("exact", "approximate", "auto", "conservative"):
         n, m = rng.randint(3, 6), rng.randint(3, 6)
